@@ -8,11 +8,11 @@ TRUST = ("Trusted base: reference models R1-R4 in /verif/sim/src (lexer.rs, mach
 
 SIM = "deterministic simulation with fault injection: "
 CHECKS = {
- "C01": ("exploration", SIM + "seeded search over the entropy seam (PRNG seeds / fuzzer scripts with cut, hostile-f64 and stuck-byte faults) x swarm configurations; oracle = exact emulation of pickletools.dis (R2)",
+ "C01": ("exploration", SIM + "seeded search over the entropy seam (PRNG seeds / fuzzer scripts with cut, hostile-f64 and stuck-byte faults) x swarm configurations; plus extremal-state runs (adaptive search over periodic/exhausted scripts), long-lived generators, enumeration of the decision tree to depth 2/3 by steering, and a model-based state cover; oracle = exact emulation of pickletools.dis (R2)",
          "Every output of a seeded batch of simulated runs is replayed through an exact emulation of pickletools.dis's symbolic stack check. Seeded search, not enumeration: a clean batch is evidence, not proof.", "DESIGN.md §5 C01", ""),
  "C02": ("exploration", SIM + "seeded search biased to >256 memo stores and index-perturbing mutators at rate 1.0; oracle = memo rules of the pickletools.dis emulation (R2)",
          "Seeded simulated runs, biased to long in-run histories (1000-6000 opcodes) and to offbyone/memoindex mutators at rate 1.0; each PUT/GET-family opcode is judged by R2's memo rules.", "DESIGN.md §5 C02", ""),
- "C03": ("exploration", SIM + "seeded search over entropy streams/faults and configurations; oracle = kind-tracking reference machine (R3) applying the operand rules of the statement",
+ "C03": ("exploration", SIM + "seeded search over entropy streams/faults and configurations; plus decision-tree enumeration to depth 2/3 by steering the real generator, a model-based state cover of the object-graph fragment, extremal-state runs; oracle = kind-tracking reference machine (R3) applying the operand rules of the statement",
          "Each output is replayed through the kind-tracking reference machine R3 and every typed opcode's operands are checked against the rules in the statement. The bounded-depth enumeration clause of the quantifier is replaced by seeded search plus exhaustive scripts of <= 2 bytes (thorough).", "DESIGN.md §5 C03", ""),
  "C04": ("exploration", SIM + "seeded search incl. unsafe mutators (the generator's own byte-rewriting fault injectors) at high rates; oracle = reference lexer (R1) with argument grammars and domains",
          "Outputs under every configuration incl. unsafe rewrites are decoded by the reference lexer R1 (grammar + domain of every argument, single trailing STOP).", "DESIGN.md §5 C04", ""),
@@ -26,13 +26,13 @@ CHECKS = {
          "Configuration invariant decided on the recorded outputs of seeded simulated runs.", "DESIGN.md §5 C10", ""),
  "C11": ("exploration", SIM + "seeded search over all opcode-range classes, entropy exhaustion and histories; oracle = phase markers / per-emission records vs R1's opcode count",
          "T is read from the trace hook, body records and decoded opcodes are counted, tail and total bounds recomputed, for every call.", "DESIGN.md §5 C11", ""),
- "C17": ("exploration", SIM + "invariant checked while the run proceeds: per-emission snapshots of the simulated stack/memo vs the kind-tracking reference machine (R3) under the compatibility relation R4",
+ "C17": ("exploration", SIM + "invariant checked while the run proceeds (also on decision-tree nodes to depth 2/3, model-based state-cover programs, extremal-state and long-lived-generator runs): per-emission snapshots of the simulated stack/memo vs the kind-tracking reference machine (R3) under the compatibility relation R4",
          "Step-by-step refinement check of the generator's simulated state against R3 on every prefix of every generated pickle of a seeded batch. Bounded-depth enumeration is replaced by seeded search plus exhaustive scripts of <= 2 bytes (thorough).", "DESIGN.md §5 C17", "Long runs (> 6000 opcodes) compare every 64th snapshot."),
- "C09": ("exploration", SIM + "seeded search over entropy faults (exhaustion at every point, hostile f64, stuck bytes), degenerate/out-of-range configuration and call histories, executed in supervised child processes (crash/abort/stack-overflow/hang observed from outside); exhaustive for fuzzer scripts of <= 1 byte (quick) / <= 2 bytes (thorough)",
+ "C09": ("exploration", SIM + "seeded search over entropy faults (exhaustion at every point, hostile f64, stuck bytes), degenerate/out-of-range configuration and call histories, and extremal-state runs found by an adaptive search (periodic scripts maximising nesting/stack/marks/memo/output, extreme state x every next opcode), executed in supervised child processes with an address-space limit (crash/abort/stack-overflow/OOM/hang observed from outside); exhaustive for fuzzer scripts of <= 1 byte (quick) / <= 2 bytes (thorough)",
          "Totality is observed from outside the process: shards run in child workers on 2 MiB stacks with a BEGIN/END protocol, catch_unwind for panics, a watchdog whose kills are confirmed by a solo re-execution before being called a hang.", "DESIGN.md §5 C09", "Allocation failure is not injected (it aborts)."),
  "C12": ("exploration", "reach probes (sometimes-assertions) of the deterministic simulator over a fixed seed range with default settings; no fault or schedule is involved",
          "Existential property: a witness seed per (protocol, opcode) pair is searched in a fixed seed window; a clean run exhibits the witnesses, a failing run means no witness within the stated budget.", "DESIGN.md §5 C12", "Required vocabulary = pickletools opcodes with proto <= P."),
- "C14": ("exploration", SIM + "seeded search over generate/reset/reconfigure/drop histories with a counting global allocator as the conservation oracle (live bytes before construction == after drop, steady state under repetition)",
+ "C14": ("exploration", SIM + "seeded search over generate/reset/reconfigure/drop histories with a counting global allocator as the conservation oracle (live bytes before construction == after drop, steady state under repetition), plus soak runs on long-lived generators and model-based synthesis of cycle-forming object-graph programs steered through the real generator",
          "History exploration with a conservation oracle on the allocator seam; every history is executed twice and only the second execution is measured.", "DESIGN.md §5 C14", "Allocation failure is not injected."),
  "C15": ("fault_enumeration", SIM + "fault-point enumeration on the entropy reader: every mutator method called directly on real sources (PRNG seeds; fuzzer scripts cut at every length, hostile f64 patterns at the gate and elsewhere) at rate 0.0 and 1.0, plus in-situ Spy records of seeded simulated runs",
          "Rate extremes are checked (a) in situ with Spy-wrapped real mutators inside seeded runs and (b) by enumerating fault points of the entropy reader for direct calls.", "DESIGN.md §5 C15", ""),
@@ -40,9 +40,9 @@ CHECKS = {
          "Each firing of a mutator, in situ or in a direct call on boundary values and exhausted/hostile entropy, is checked against the documented contract; panics are caught.", "DESIGN.md §5 C16", ""),
  "C18": ("fault_enumeration", SIM + "end-of-stream / short-read fault enumeration on the entropy seam: every EntropySource method x argument grid x ALL fuzzer scripts of length <= 2, sampled longer scripts at every cut, sampled PRNG states",
          "The adapters' range contracts and fixed fallbacks are enumerated over all short scripts and sampled beyond.", "DESIGN.md §5 C18", "gen_bytes(usize::MAX) excluded: allocation failure aborts."),
- "C07": ("exploration", SIM + "seeded baton scheduler over real OS threads (one runs at a time, hand-over at every emission step; policies bursty/uniform/round-robin/PCT-style), twin tasks under simulator-chosen memo hash keys, colocated tasks per worker, plus the same scenario batch in fresh processes; oracle = byte equality with the task run alone",
+ "C07": ("exploration", SIM + "seeded baton scheduler over real OS threads (one runs at a time, hand-over at every emission step; policies bursty/uniform/round-robin/PCT-style), twin tasks under simulator-chosen memo hash keys, colocated tasks per worker, clock-jump faults through an LD_PRELOAD clock seam, plus the same scenario batch in fresh processes; oracle = byte equality with the task run alone",
          "Interleavings of concurrent generator instances, hash-map seeds and task placement are chosen by a seeded scheduler and are exactly replayable from the recorded schedule string; separate processes are sampled, not controlled.", "DESIGN.md §5 C07", "rayon scheduling inside the CLI, ASLR and the seeds of pointer-keyed sets are varied but not chosen."),
- "C13": ("exploration", SIM + "real front ends (hook-free CLI binary, action wrapper script, _native Python extension) driven with simulator-drawn options, call sequences and path-keyed filesystem faults (ENOSPC/EISDIR/ENOENT/ENOTDIR, stale files) at sampled rayon worker counts; oracle = hooked library with the corresponding configuration",
+ "C13": ("exploration", SIM + "real front ends (hook-free CLI binary, action wrapper script, _native Python extension) driven with simulator-drawn options, call sequences and path-keyed filesystem faults (ENOSPC/EISDIR/ENOENT/ENOTDIR, stale files, mass-fault plans with 255/256/257/512/all failing writes) at sampled rayon worker counts, the Atheris harness driven through a stub; oracle = hooked library with the corresponding configuration",
          "Front ends are real binaries/modules built from the working tree; the option space and Python call sequences are sampled by seed; write faults are planted by path so they do not depend on the rayon schedule, which is only sampled via worker counts.", "DESIGN.md §5 C13", "atheris is stubbed; unseeded runs are only checked structurally."),
 }
 PENDING = "check under construction in this session (see DESIGN.md §5)"
